@@ -290,6 +290,8 @@ def oracle(c, o):
         return None
     if o["open"][0] == "ok" and o["open"][1][0] != first:
         return "detected encoding %s, the first that decodes the whole file is %s" % (encs[o["open"][1][0]], encs[first])
+    if o["open"] == ["err", "UnicodeDecodeError"]:
+        return "the whole file decodes as %s, yet opening it raised UnicodeDecodeError" % encs[first]
     if o["open"][0] != "ok":
         return None if o["exc"] is not None and files == before else "open failed (%s) but mutate did not fail cleanly" % o["open"][1]
     # "loads exactly that decoded text": the documented loading rules (C03's, stated on msdparser's tokens) applied to the text-mode contents
